@@ -132,10 +132,15 @@ TStr == l <= Len(Trace) /\ Line.ev = "Str" /\ Step(StrStrict, StrMonitor)
 TPar == l <= Len(Trace) /\ Line.ev = "Par" /\ Step(ParStrict, ParMonitor)
 TRes == l <= Len(Trace) /\ Line.ev = "Res" /\ Step(ResStrict, ResMonitor)
 TRnd == l <= Len(Trace) /\ Line.ev = "Rnd" /\ Step(RndStrict, RndMonitor)
-TSkip == l <= Len(Trace) /\ Line.ev \notin {"Str", "Par", "Res", "Rnd"} /\ Step(0, 0)    \* "Corner" measurements
+\* the real tables behind IsEnum / IsBool / IsProcess (apricotpb.RunType_value, strconv.ParseBool, the key "process")
+TTable == /\ l <= Len(Trace) /\ Line.ev = "Table"
+          /\ Step(Drift(/\ Range(Line.enums) = EnumNames
+                        /\ Range(Line.trues) = TrueStrings /\ Range(Line.falses) = FalseStrings
+                        /\ Line.processkey, "table"), 0)
+TSkip == l <= Len(Trace) /\ Line.ev \notin {"Str", "Par", "Res", "Rnd", "Table"} /\ Step(0, 0)    \* "Corner" measurements
 
 TraceInit == l = 1 /\ nviol = 0 /\ ndrift = 0
-TraceNext == TStr \/ TPar \/ TRes \/ TRnd \/ TSkip
+TraceNext == TStr \/ TPar \/ TRes \/ TRnd \/ TTable \/ TSkip
 TraceSpec == TraceInit /\ [][TraceNext]_tvars
 
 Done == l = Len(Trace) + 1
